@@ -83,7 +83,7 @@ def required_class(block: str, key: str, idx: int) -> str:
 
 IMPORTS = ['Coq.NArith.NArith', 'Coq.ZArith.ZArith', 'Coq.Lists.List', 'Coq.Strings.String', 'SV.KV.KvBase', 'SV.Fmt.VmfText',
            'SV.Fmt.VmfBlocks', 'SV.Gen.VmfTemplates_gen', 'SV.Gen.VmfKeys_gen', 'SV.Gen.VmfDispSizes_gen', 'SV.Gen.VmfOrder_gen',
-           'SV.Gen.VmfProg_gen', 'SV.Fmt.VmfFields', 'SV.Gen.VmfFieldsCfg_gen', 'SV.Fmt.VmfNum', 'SV.Gen.VmfNumFmt_gen', 'SV.Fmt.VmfGuard', 'SV.Fmt.VmfLite', 'SV.Gen.VmfLite_gen', 'SV.Fmt.VmfFlags', 'SV.Gen.VmfFlags_gen', 'SV.Fmt.VmfTok', 'SV.Fmt.VmfPlane', 'SV.Fmt.VmfIds', 'SV.Gen.VmfIds_gen', 'SV.Fmt.VmfTree', 'SV.KV.KvSym', 'SV.Gen.KVSer_gen', 'SV.Props.C06']
+           'SV.Gen.VmfProg_gen', 'SV.Fmt.VmfFields', 'SV.Gen.VmfFieldsCfg_gen', 'SV.Fmt.VmfNum', 'SV.Gen.VmfNumFmt_gen', 'SV.Fmt.VmfGuard', 'SV.Fmt.VmfLite', 'SV.Gen.VmfLite_gen', 'SV.Fmt.VmfFlags', 'SV.Gen.VmfFlags_gen', 'SV.Fmt.VmfTok', 'SV.Fmt.VmfPlane', 'SV.Fmt.VmfIds', 'SV.Gen.VmfIds_gen', 'SV.Fmt.VmfTree', 'SV.Fmt.VmfSets', 'SV.Gen.VmfSets_gen', 'SV.KV.KvSym', 'SV.Gen.KVSer_gen', 'SV.Props.C06']
 PRE = '''Import ListNotations. Open Scope string_scope.
 Fixpoint nl_eqb (a b : list N) : bool := match a, b with [], [] => true | x :: a', y :: b' => N.eqb x y && nl_eqb a' b' | _, _ => false end.
 Fixpoint bad_idx {A} (f : A -> bool) (n : N) (l : list A) : list N := match l with [] => [] | x :: r => (if f x then [] else [n]) ++ bad_idx f (n + 1)%N r end.
@@ -1017,7 +1017,7 @@ def run(ck: Ck) -> None:
     # C01's generated parser sites (read-only use of C01's translator): premise pcfg_ok of the block theorem
     oks.append(ck.translate('KVSer_gen', c01_kvser.translate))
     tr = ck.extra.get('translated', {})
-    built = all(oks) and ck.build(['Gen/KVSer_gen.vo', 'Gen/VmfIds_gen.vo', 'Props/C06.vo'])
+    built = all(oks) and ck.build(['Gen/KVSer_gen.vo', 'Gen/VmfIds_gen.vo', 'Gen/VmfSets_gen.vo', 'Props/C06.vo'])
     if built:
         ck.theorems('Props/C06.v')
         obs: dict[str, str] = {}
@@ -1080,6 +1080,11 @@ def run(ck: Ck) -> None:
             ck.hist('containment_edges', f'{pc}.{attr}->{cc}' + ('' if cc in L.CLASSES else ' (class not in the object-level table)'))
         obs['containment_chain:VMF>Entity>Solid>Side'] = 'chain_ok lite_classes lite_kid_classes ("VMF" :: "Entity" :: "Solid" :: "Side" :: nil)'
         obs['containment_chain:VMF>VisGroup>VisGroup'] = 'chain_ok lite_classes lite_kid_classes ("VMF" :: "VisGroup" :: "VisGroup" :: nil)'
+        # membership sets (round 4): every loop of an export method over a set-typed attribute iterates sorted(...)
+        loops = tr.get('VmfSets_gen', {}).get('loops', [])
+        for meth in sorted({m for m, _a, _ok in loops}):
+            obs[f'membership_lines_in_canonical_order:{meth}'] = f'member_loops_ok (loops_of "{meth}" gen_member_loops)'
+        obs['membership_loops_found'] = '(3 <=? List.length gen_member_loops)%nat'
         obs['object_classes_complete'] = f'({len(L.CLASSES)} <=? List.length lite_classes)%nat'
         obs['disp_flags_tables_inverse'] = 'flags_tables_ok gen_flags_written gen_flags_t2c gen_flags_sub gen_flags_count'
         obs['disp_flags_all_values'] = '(16 <=? gen_flags_count)%nat'
@@ -1171,6 +1176,9 @@ def run(ck: Ck) -> None:
         ck.explain('instance:id_managers_complete')
         ck.explain('correspondence:id_manager_programs')
         ck.explain('translate:VmfIds_gen')
+    if any(k.endswith((':visgroupid', ':groupid', 'groupid|visgroupid', 'visgroupid|groupid')) or 'visgroupid' in k or 'groupid' in k for k in keys):
+        ck.explain('instance:membership_lines_in_canonical_order')
+        ck.explain('instance:membership_loops_found')
     if any(k.startswith('order:entities') or k.startswith('text::') for k in keys):
         ck.explain('instance:entity_blocks_read_in_file_order')
     if any('fixups' in k or 'replaceN' in k for k in keys):
